@@ -136,6 +136,31 @@ int p_c19(void)
 		rng_t r3 = rng_make(g_run.seed, 1950 + a, 2);
 		walk_arc(unit, first, n, &r3);
 	}
+	/* reduction-boundary states: the split multiplication folds a carry when the 32-bit partial sum exceeds 2^31-1; the states whose
+	 * successor is within 4096 of either end of 1..2^31-2 sit on both sides of that test (the successor 1 is reached only from the
+	 * single state 16807^-1 = 1407677000, 3 steps before the end of the cycle). They are constructed by modular inverse. */
+	rep_unit(unit);
+	if (rep_unit_mine(unit) && rep_case("reduction-boundary states: successors 1..4096 and 2^31-1-4096..2^31-2")) {
+		uint64_t inv16807 = pm_powb(16807, PM_M - 2); int bad = 0; uint64_t nb = 0;
+		for (int side = 0; side < 2 && !bad; side++) for (uint64_t d = 1; d <= 4096 && !bad; d++) {
+			uint64_t s1 = side ? PM_M - d : d, s0 = (s1 * inv16807) % PM_M;
+			for (unsigned mi = 0; mi < sizeof g_maxv / sizeof g_maxv[0] && !bad; mi++) {
+				of_rfc5170_srand(s0);
+				if (of_seed != s0) { rep_viol("prng-seed-accept", "valid seed %llu rejected", (unsigned long long)s0); bad = 1; break; }
+				step(s0, g_maxv[mi], &bad); nb++;
+			}
+			/* and the two steps that follow, so that a state left outside 1..2^31-2 cannot go unnoticed */
+			if (!bad) { uint64_t s = s1; s = step(s, 0x7FFFFFFF, &bad); if (!bad) step(s, 65536, &bad); }
+		}
+		rep_count("reduction_boundary_steps_checked", nb);
+		rep_count("prng_steps_checked", nb);
+		rep_case_done(1, 0, 1);
+	}
+	unit++;
+	/* the last million steps of the cycle (quick walks the first 2e8 only) */
+	rep_unit(unit);
+	if (rep_unit_mine(unit)) { rng_t r4 = rng_make(g_run.seed, 1999, 3); walk_arc(unit, PM_M - 1 - 1000000, 1000000, &r4); }
+	unit++;
 	/* rounding-sensitive pairs: states s' with s'*maxv = -r or +r (mod 2^31-1) for small r and s'*maxv >= 2^53 are exactly
 	 * where the RFC's double expression and an exact integer floor can disagree; they are constructed (modular inverse),
 	 * the library is seeded one step before, and its return value is compared with the double expression. Random sampling
